@@ -561,14 +561,14 @@ def _norm_fact(f):
     return (atom, pol)
 
 
-def path_exists_feasible(fn, src, dst_pred, avoid=lambda pos, elem: False, kill="assign", max_states=200000):
+def path_exists_feasible(fn, src, dst_pred, avoid=lambda pos, elem: False, kill="assign", max_states=200000, init_facts=(), infeasible=None):
     """like path_exists, but tracks the branch facts established along the path
     (killed by assignments to what they mention) and prunes an edge whose
     condition contradicts a fact still in force — removes the classic
     `if (ok) step1; if (ok) step2; if (!ok) return;` false paths."""
     kill_fn = assigned_roots if kill == "assign" else written_roots
     bid, idx = src
-    start = (bid, idx + 1, frozenset())
+    start = (bid, idx + 1, frozenset(_norm_fact(x) for x in init_facts))
     work = deque([(start, (bid,))])
     seen = set()
     while work:
@@ -617,6 +617,8 @@ def path_exists_feasible(fn, src, dst_pred, avoid=lambda pos, elem: False, kill=
                 cur = set(_norm_fact(x) for x in facts)
                 if any((a, not p) in cur for a, p in new):
                     continue        # contradicts a fact in force: infeasible edge
+                if infeasible is not None and any(infeasible(a, p) for a, p in new):
+                    continue        # contradicts the caller's standing assumption
                 nf = frozenset(cur | new)
             work.append(((s, 0, nf), path + (s,)))
     return None
@@ -689,6 +691,44 @@ def bool_eval(fn, n, env, depth=0):
             return bool_eval(fn, inits[0], env, depth + 1)
     return None
 
+
+
+def possible_returns(fn, env, max_states=20000):
+    """{True, False, None} values a bool function can return when the atoms in env have the given truth values: every CFG path whose
+    branch conditions are not refuted by env is followed (a condition that evaluates to a constant under env takes that edge only);
+    the returned expression is evaluated under env too (None: depends on something outside env).  Form-independent: `if (a) return false;
+    return true;` and `return !a;` give the same answer.  Conditional operators in a returned expression are handled by their CFG edges."""
+    from .facts import core
+    out = set()
+    seen = set()
+    work = [fn.entry]
+    while work:
+        b = work.pop()
+        if b in seen or b is None:
+            continue
+        seen.add(b)
+        if len(seen) > max_states:
+            return {True, False, None}
+        blk = fn.blocks[b]
+        stop = False
+        for e in blk.raw_elems:
+            n = elem_node(fn, e)
+            if n is not None and n.get("k") == "return":
+                out.add(bool_eval(fn, n.child("e"), env) if "e" in n else None)
+                stop = True
+                break
+        if stop or blk.noreturn or b == fn.exit:
+            continue
+        c = blk.effective_cond()
+        two = blk.term is not None and c is not None and len(blk.succs) == 2
+        v = bool_eval(fn, c, env) if two else None
+        for si, s_ in enumerate(blk.succs):
+            if s_ is None:
+                continue
+            if two and v is not None and ((si == 0) != v):
+                continue
+            work.append(s_)
+    return out
 
 # -------------------------------------------------- boolean normal form of small conditions
 def norm_bool(fn, n, depth=0):
